@@ -501,6 +501,17 @@ func (a *Application) executeTranslatedStreamingRequest(
 		return fmt.Errorf("request cancelled while waiting for backend headers: %w", ctx.Err())
 	}
 
+	// headersReady is also closed when the proxy gave up without ever answering (every
+	// endpoint refused or reset the connection). There is nothing to translate then: report
+	// the proxy's error instead of finalising an empty pipe into a 200 event stream.
+	if !streamRecorder.headerWritten {
+		pipeReader.Close()
+		if proxyErr := <-proxyErrChan; proxyErr != nil {
+			return fmt.Errorf("proxy request failed: %w", proxyErr)
+		}
+		return fmt.Errorf("proxy request failed: backend sent no response")
+	}
+
 	// handle backend errors before starting sse stream
 	if streamRecorder.status >= 400 {
 		a.handleStreamingBackendError(w, pipeReader, streamRecorder, proxyErrChan, pr, trans)
@@ -849,6 +860,9 @@ type streamingResponseRecorder struct {
 	headersReady chan struct{}
 	closeOnce    sync.Once
 	status       int
+	// headerWritten is set, before headersReady is closed, iff the close was caused by a
+	// WriteHeader/Write of the proxy (and not by the proxy ending without an answer).
+	headerWritten bool
 }
 
 func newStreamingResponseRecorder(w io.Writer) *streamingResponseRecorder {
@@ -870,14 +884,22 @@ func (r *streamingResponseRecorder) ensureHeadersReady() {
 	r.closeOnce.Do(func() { close(r.headersReady) })
 }
 
+// markWritten is ensureHeadersReady for the case that the backend really answered.
+func (r *streamingResponseRecorder) markWritten() {
+	r.closeOnce.Do(func() {
+		r.headerWritten = true
+		close(r.headersReady)
+	})
+}
+
 func (r *streamingResponseRecorder) Write(data []byte) (int, error) {
-	r.ensureHeadersReady()
+	r.markWritten()
 	return r.writer.Write(data)
 }
 
 func (r *streamingResponseRecorder) WriteHeader(statusCode int) {
 	r.status = statusCode // Capture status code to detect backend errors
-	r.ensureHeadersReady()
+	r.markWritten()
 	// Don't propagate the status write for streaming; just mark headers sent.
 }
 
